@@ -18,7 +18,7 @@ func init() {
 			"C03.2 every write of a waiter-visible field (outstanding, unqueried, closest) outside the waiting loop's own call tree is followed on every path, within its goroutine, by a Broadcast on the condition; the release of the in-flight slot (outstanding--) is the last waiter-visible effect of a query goroutine; " +
 			"C03.3 the stalled signal is armed only under outstanding = 0 ∧ (no candidate qualifies ∨ Alpha = 0), evaluated in the critical section that takes the wake-up channel; " +
 			"C03.5 the candidate predicate: haveQuery() is false only when the frontier is empty, or the result set is full and the nearest candidate has no ID or is strictly farther than the farthest member (distance of candidate ID vs distance of Farthest().ID to the lookup target, compared with Cmp); it is true only when the frontier is non-empty; the candidate examined is the frontier's Next() element, which is also the one popped; " +
-			"C03.4 Stop completes: stopped.Set() is deferred at the top of the stop goroutine, which leaves its loop only under outstanding = 0; every started query goroutine decrements outstanding on every path (deferred), and outstanding is incremented before the goroutine is started.",
+			"C03.4 Stop completes: stopped.Set() is deferred at the top of the stop goroutine, which leaves its loop only under outstanding = 0; every started query goroutine decrements outstanding on every path (deferred), and outstanding is incremented before the goroutine is started. C03.11 every contact named in a reply is offered to the frontier: after DoQuery returns both contact lists of the result reach AddNodes on every path, the converter and AddNodes step through their input element by element (no reslice, no branch besides the loop test), and the library adaptor passes the reply lists on whole.",
 		NotDecided: "finiteness of the query sequence (needs C04.3 plus a finite address universe), the arithmetic of the stall predicate inside haveQuery ('no farther than the farthest member', value level), scheduler fairness and timing.",
 		Assume: []string{
 			"chansync.BroadcastCond: Signaled() returns a channel closed by the next Broadcast(); LevelTrigger.Signal() returns the channel observers receive from",
@@ -30,6 +30,7 @@ func init() {
 			{ID: "C03.4", Doc: "Stop completes", Floor: 5, Run: c03r4},
 			{ID: "C03.5", Doc: "who may be left unqueried at stall", Floor: 4, Run: c03r5},
 			{ID: "C03.10", Doc: "a learned contact is kept out of the frontier only because it was already queried or the node filter rejected it, and leaves the frontier only by being popped for its query", Floor: 3, Run: c03r10},
+			{ID: "C03.11", Doc: "every contact named in a reply is offered to the frontier: both lists of the query result reach AddNodes on every path, through element-by-element conversion and iteration (no cap, no filter on the way)", Floor: 5, Run: c03r11},
 			{ID: "C03.9", Doc: "an address is marked as queried only when its query is started: every insertion into the queried set is followed, on every path, by the start of the query goroutine", Floor: 1, Run: c03r9},
 			{ID: "C03.8", Doc: "the run loop goes to sleep only after re-testing whether another query can be started: between starting a query and the wait it always re-evaluates outstanding < Alpha", Floor: 1, Run: c03r8},
 			{ID: "C03.7", Doc: "the frontier's order is total on distinct contacts, so no learned contact is dropped as a duplicate of another (shared with C18.3)", Floor: 4, Run: c18r3},
@@ -902,4 +903,156 @@ func c03r10(w *World, rr *RuleRun) {
 	if nDel == 0 {
 		rr.Oblige("traversal", "the frontier is consumed by startQuery", "-", false, "no removal from unqueried")
 	}
+}
+
+// losslessElementwise: f maps or consumes its slice parameter element by element without dropping
+// any: it never reslices the parameter, ranges over the parameter itself (index compared with
+// len(param)), has no branch other than the loop test, and does its per-element work (the call or
+// append given by perElem) in the loop body.
+func (w *World) losslessElementwise(f *ssa.Function, perElem func(ssa.Instruction) bool) (bool, string) {
+	if f == nil || len(f.Blocks) == 0 {
+		return false, "no body"
+	}
+	var param *ssa.Parameter
+	for _, p := range f.Params {
+		if _, ok := p.Type().Underlying().(*types.Slice); ok {
+			param = p
+		}
+	}
+	if param == nil {
+		return false, "no slice parameter"
+	}
+	ranged, work, nIf := false, false, 0
+	why := ""
+	eachInstr([]*ssa.Function{f}, func(_ *ssa.Function, ins ssa.Instruction) {
+		switch x := ins.(type) {
+		case *ssa.Slice:
+			if x.X == ssa.Value(param) {
+				why = "reslices its input (" + w.TS.Of(x).String() + "): elements beyond the window are dropped"
+			}
+		case *ssa.If:
+			nIf++
+		case *ssa.IndexAddr:
+			if x.X == ssa.Value(param) && isRangeIndex(x.Index, param) {
+				ranged = true
+			}
+		case *ssa.Index:
+			if x.X == ssa.Value(param) && isRangeIndex(x.Index, param) {
+				ranged = true
+			}
+		}
+		if perElem(ins) {
+			work = true
+		}
+	})
+	switch {
+	case why != "":
+		return false, why
+	case !ranged:
+		return false, "does not range over the whole of its input"
+	case nIf != 1:
+		return false, fmt.Sprintf("%d branches besides the loop test: some elements can be skipped", nIf-1)
+	case !work:
+		return false, "no per-element work found in the loop"
+	}
+	return true, "ranges over its input, one unconditional step per element"
+}
+
+// c03r11: every contact named in a reply is offered to the frontier. After DoQuery returns, every
+// path of the query goroutine hands both contact lists of the result (Nodes and Nodes6) to AddNodes,
+// through a converter that maps element by element; AddNodes offers every element to
+// addNodeLocked (whose refusals C03.10 enumerates). A cap or filter anywhere on this chain keeps
+// contacts from ever being asked: the lookup stalls without them and the result is not the K closest.
+func c03r11(w *World, rr *RuleRun) {
+	t := w.trav()
+	addNodes := w.P.Func("(*traversal.Operation).AddNodes")
+	addLocked := w.P.Func("(*traversal.Operation).addNodeLocked")
+	qr := w.P.NamedType("traversal", "QueryResult").Underlying().(*types.Struct)
+	var listFields []*types.Var
+	for i := 0; i < qr.NumFields(); i++ {
+		if sl, ok := qr.Field(i).Type().Underlying().(*types.Slice); ok && strings.HasSuffix(sl.Elem().String(), "krpc.NodeInfo") {
+			listFields = append(listFields, qr.Field(i))
+		}
+	}
+	rr.Oblige("traversal.QueryResult", "the query result carries contact lists", "-", len(listFields) >= 2, fmt.Sprintf("%d []krpc.NodeInfo fields", len(listFields)))
+	isAppend := func(ins ssa.Instruction) bool {
+		if c := callInstrCommon(ins); c != nil {
+			if b, ok := c.Value.(*ssa.Builtin); ok && b.Name() == "append" {
+				return true
+			}
+		}
+		return false
+	}
+	for _, dq := range w.doQuerySites(t) {
+		fn := dq.Parent()
+		res := w.TS.Of(dq)
+		for _, lf := range listFields {
+			lf := lf
+			var sites []ssa.Instruction
+			for _, site := range w.CallsIn(fn, addNodes, false) {
+				for _, a := range w.ArgTerms(site, 1) {
+					// conv(res.F) or res.F itself
+					src := a
+					if src.Op == OpCall && len(src.Args) == 1 {
+						if g, _ := src.Obj.(*ssa.Function); g != nil && w.P.IsLib(g) {
+							src = src.Args[0]
+						} else if o, _ := a.Obj.(*types.Func); o != nil && o.Pkg() != nil && strings.HasPrefix(o.Pkg().Path(), modPath) {
+							src = src.Args[0]
+						}
+					}
+					if isFieldTerm(src, lf) && src.Args[0].Contains(res) || isFieldTerm(src, lf) && termEq(src.Args[0], res) {
+						sites = append(sites, site)
+					}
+				}
+			}
+			if len(sites) == 0 {
+				rr.At(w, dq, "the reply's "+lf.Name()+" list is handed to AddNodes", false, "no AddNodes call takes (a conversion of) the query result's "+lf.Name())
+				continue
+			}
+			set := map[ssa.Instruction]bool{}
+			for _, s := range sites {
+				set[s] = true
+			}
+			ok, wit := MustPass(dq, func(i ssa.Instruction) bool { return set[i] })
+			det := ""
+			if !ok && wit != nil {
+				det = "the goroutine can end at " + w.P.Pos(wit.Pos()) + " without offering them"
+			}
+			rr.At(w, dq, "the reply's "+lf.Name()+" list is handed to AddNodes on every path after the query returns", ok, det)
+			// the converter on the way
+			for _, s := range sites {
+				if c, isCall := callInstrCommon(s).Args[1].(*ssa.Call); isCall {
+					if g := c.Call.StaticCallee(); g != nil && w.P.IsLib(g) {
+						okc, whyc := w.losslessElementwise(g, isAppend)
+						rr.At(w, s, "the conversion of the reply's "+lf.Name()+" keeps every contact", okc, shortFuncName(g)+": "+whyc)
+					}
+				}
+			}
+		}
+	}
+	// the library's own callbacks build the query result from the reply through one adaptor: it
+	// passes the reply's lists on as they are
+	if tq := w.P.FuncOpt("(QueryResult).TraversalQueryResult"); tq != nil {
+		for _, lf := range listFields {
+			rf := w.P.Field("krpc", "Return", lf.Name())
+			n := 0
+			for _, ins := range w.FieldWrites([]*ssa.Function{tq}, lf) {
+				st, ok := ins.(*ssa.Store)
+				if !ok {
+					continue
+				}
+				n++
+				v := w.TS.Of(st.Val)
+				rr.At(w, ins, "the adaptor passes the reply's "+lf.Name()+" list on whole", isFieldTerm(v, rf), "stores "+trunc(v.String(), 100))
+			}
+			if n == 0 {
+				rr.Oblige(shortFuncName(tq), "the adaptor passes the reply's "+lf.Name()+" list on whole", w.P.Pos(tq.Pos()), false, "never assigned")
+			}
+		}
+	}
+	okA, whyA := w.losslessElementwise(addNodes, func(ins ssa.Instruction) bool {
+		c := callInstrCommon(ins)
+		return c != nil && c.StaticCallee() == addLocked
+	})
+	rr.Oblige(shortFuncName(addNodes), "AddNodes offers every element of its argument to the frontier", w.P.Pos(addNodes.Pos()), okA, whyA)
 }
